@@ -191,44 +191,6 @@ func execLine(line string) string {
 			return kind
 		}
 		return fmt.Sprintf("%s %d %s", kind, left, hx.Hex(ret))
-	case "jd":
-		// a session of frames sharing one jumpdests map (hook VerifJdSession)
-		ses := vm.VerifNewJdSession()
-		var out []string
-		for _, t := range w[1:] {
-			f := strings.Split(t, ":")
-			switch {
-			case len(f) == 3 && strings.HasPrefix(f[0], "c"):
-				id, e1 := strconv.Atoi(f[0][1:])
-				code, e2 := hx.UnHex(f[1])
-				h, e3 := hx.UnHex(f[2])
-				if e1 != nil || e2 != nil || e3 != nil {
-					return "bad-op"
-				}
-				hash := common.Hash{}
-				if len(h) > 0 {
-					hash = common.BytesToHash(h)
-				}
-				ses.Contract(id, code, hash)
-			case len(f) == 2 && strings.HasPrefix(f[0], "v"):
-				id, e1 := strconv.Atoi(f[0][1:])
-				d, e2 := hx.UnHex(f[1])
-				if e1 != nil || e2 != nil || len(d) > 32 {
-					return "bad-op"
-				}
-				r := "f"
-				if ses.ValidJumpdest(id, new(uint256.Int).SetBytes(d)) {
-					r = "t"
-				}
-				out = append(out, r+strconv.Itoa(ses.Shared()))
-			default:
-				return "bad-op"
-			}
-		}
-		if len(out) == 0 {
-			return "-"
-		}
-		return strings.Join(out, " ")
 	case "idcall":
 		// memory := call data; STATICCALL 0x04 with the given windows; answer: memory right after
 		// the call and the return data (observed through RETURNDATACOPY/RETURNDATASIZE)
